@@ -70,3 +70,71 @@ func VerbatimCopy(r *core.Run, rel, fn, upstreamPkg, upstreamFn string) {
 	}
 	o.Fail("the copy differs from the library original (%s): its behaviour is no longer vouched for by the library", diff)
 }
+
+// VerbatimLoop (R-CONST/copy, loop form): as VerbatimCopy, for a function that
+// was adapted from the library with a different signature (a string result
+// instead of an append-to buffer, a flag fixed to a constant): the part that is
+// the library's — the top-level loop that does the work — is compared with the
+// original's loop. The surrounding prologue and epilogue are the adaptation and
+// are not compared.
+func VerbatimLoop(r *core.Run, rel, fn, upstreamPkg, upstreamFn string) {
+	r.Rule("R-CONST/copy", "a function kept as a verbatim copy of an unexported library function has the same signature and body as the original in the module cache (compared as syntax trees printed without comments); the library's behaviour is then the copy's behaviour")
+	fd, _ := r.P.FuncDecl(rel, fn)
+	o := r.Add("R-CONST/copy", fmt.Sprintf("%s.%s loop ≡ %s.%s loop", rel, fn, upstreamPkg, upstreamFn), token.NoPos, "main loop adapted verbatim from "+upstreamPkg+"."+upstreamFn)
+	if fd == nil {
+		r.Fatal("anchor: %s.%s not found", rel, fn)
+		return
+	}
+	o.Pos = r.P.Rel(fd.Pos())
+	up := r.P.ByPkg[upstreamPkg]
+	if up == nil || len(up.Syntax) == 0 {
+		r.Fatal("anchor: upstream package %s is not loaded with syntax", upstreamPkg)
+		return
+	}
+	var ufd *ast.FuncDecl
+	for _, f := range up.Syntax {
+		for _, d := range f.Decls {
+			if x, ok := d.(*ast.FuncDecl); ok && x.Name.Name == upstreamFn && x.Recv == nil {
+				ufd = x
+			}
+		}
+	}
+	if ufd == nil {
+		r.Fatal("anchor: %s.%s not found upstream", upstreamPkg, upstreamFn)
+		return
+	}
+	loop := func(d *ast.FuncDecl) string {
+		var out []string
+		for _, s := range d.Body.List {
+			switch s.(type) {
+			case *ast.ForStmt, *ast.RangeStmt:
+				var b bytes.Buffer
+				(&printer.Config{Mode: printer.RawFormat}).Fprint(&b, token.NewFileSet(), s)
+				out = append(out, b.String())
+			}
+		}
+		if len(out) != 1 {
+			return ""
+		}
+		return out[0]
+	}
+	a, b := loop(fd), loop(ufd)
+	switch {
+	case b == "":
+		r.Fatal("anchor: %s.%s has no single top-level loop", upstreamPkg, upstreamFn)
+	case a == "":
+		o.Fail("the adapted copy no longer has a single top-level loop to compare with the library original")
+	case a == b:
+		o.Auto("loop identical to the original's (%d bytes of canonical syntax)", len(a))
+	default:
+		la, lb := bytes.Split([]byte(a), []byte("\n")), bytes.Split([]byte(b), []byte("\n"))
+		diff := fmt.Sprintf("%d vs %d lines", len(la), len(lb))
+		for i := 0; i < len(la) && i < len(lb); i++ {
+			if !bytes.Equal(la[i], lb[i]) {
+				diff = fmt.Sprintf("copy: %q / original: %q", bytes.TrimSpace(la[i]), bytes.TrimSpace(lb[i]))
+				break
+			}
+		}
+		o.Fail("the adapted loop differs from the library original (%s): its behaviour is no longer vouched for by the library", diff)
+	}
+}
